@@ -485,6 +485,11 @@ def _set_allocations_for_consumer(req, schema):
         data_util.update_consumers([consumer], {consumer_uuid: request_attr})
 
         alloc_obj.replace_all(ctx, allocation_objects)
+        if created_new_consumer and not allocation_objects:
+            # Empty allocations for a consumer that did not exist: nothing
+            # was written, so do not leave a consumer record without
+            # allocations (removed in this same transaction).
+            consumer.delete()
         LOG.debug("Successfully wrote allocations %s", allocation_objects)
 
     def _create_allocations():
@@ -515,11 +520,6 @@ def _set_allocations_for_consumer(req, schema):
             'Inventory and/or allocations changed while attempting to '
             'allocate: %(error)s' % {'error': exc},
             comment=errors.CONCURRENT_UPDATE)
-
-    if created_new_consumer and not allocation_objects:
-        # Empty allocations for a consumer that did not exist: nothing was
-        # written, so do not leave a consumer record without allocations.
-        delete_consumers([consumer])
 
     req.response.status = 204
     req.response.content_type = None
@@ -606,6 +606,12 @@ def set_allocations(req):
         data_util.update_consumers(consumers.values(), requested_attrs)
 
         alloc_obj.replace_all(ctx, allocations)
+        # Empty allocations for consumers that did not exist: nothing was
+        # written for them, so do not leave consumer records without
+        # allocations (removed in this same transaction).
+        for new_consumer in new_consumers_created:
+            if not data[new_consumer.uuid]['allocations']:
+                new_consumer.delete()
         LOG.debug("Successfully wrote allocations %s", allocations)
 
     def _create_allocations():
@@ -634,11 +640,6 @@ def set_allocations(req):
             'Inventory and/or allocations changed while attempting to '
             'allocate: %(error)s' % {'error': exc},
             comment=errors.CONCURRENT_UPDATE)
-
-    # Empty allocations for consumers that did not exist: nothing was written
-    # for them, so do not leave consumer records without allocations.
-    delete_consumers([consumer for consumer in new_consumers_created
-                      if not data[consumer.uuid]['allocations']])
 
     req.response.status = 204
     req.response.content_type = None
